@@ -56,6 +56,10 @@ pub enum Op {
     SwapOwn(i64, i64),
     /// `own = [a]; own.extend shared; own.to_tuple()`: a snapshot read into a private list
     ExtendOwnFromShared(i64),
+    /// `shared.extend a..a+3` (the generic-iterable arm of list.extend)
+    ExtendRange(i64),
+    /// `shared.extend (a..a+3).each |v| v` (an adaptor chain as the iterable)
+    ExtendIter(i64),
     // map, class A
     MInsert(String, i64),
     MRemove(String),
@@ -75,6 +79,11 @@ pub enum Op {
     MCopy,
     MDisplay,
     MEqSelf,
+    /// `smap == smap.with_meta {…}`: same data, different meta map (one container, two handles
+    /// created by the operation itself)
+    MEqMetaView,
+    /// `smap.extend (('k', v),)` through the generic-iterable arm
+    MExtendIter(String, i64),
     // class N: not atomic by construction (user callbacks / one lock per element)
     NForCount,
     NToList,
@@ -136,6 +145,8 @@ impl Op {
             RetainValue(v) => format!("shared.retain {v}\nnull"),
             SwapOwn(a, b) => format!("own = [{a}, {b}]\nshared.swap own\nown.to_tuple()"),
             ExtendOwnFromShared(a) => format!("own = [{a}]\nown.extend shared\nown.to_tuple()"),
+            ExtendRange(a) => format!("shared.extend {a}..{}\nnull", a + 3),
+            ExtendIter(a) => format!("shared.extend ({a}..{}).each |v| v\nnull", a + 3),
             MInsert(k, v) => format!("smap.insert '{k}', {v}"),
             MRemove(k) => format!("smap.remove '{k}'"),
             MGet(k) => format!("smap.get '{k}'"),
@@ -154,6 +165,8 @@ impl Op {
             MCopy => "koto.copy smap".into(),
             MDisplay => "'{smap}'".into(),
             MEqSelf => "smap == smap".into(),
+            MEqMetaView => "v = smap.with_meta {@type: 'View'}\nsmap == v".into(),
+            MExtendIter(k, v) => format!("smap.extend ((('{k}', {v}),).each |e| e)\nnull"),
             NForCount => "c = 0\nfor x in shared\n  c += 1\nc".into(),
             NToList => "shared.to_list().to_tuple()".into(),
             NRetainPred => "shared.retain |x| x % 2 == 0\nnull".into(),
@@ -315,6 +328,10 @@ pub fn apply(m: &mut Model, op: &Op) -> String {
             own.extend(m.list.iter().copied());
             fmt_tuple(&own)
         }
+        ExtendRange(a) | ExtendIter(a) => {
+            m.list.extend([*a, *a + 1, *a + 2]);
+            null()
+        }
         MInsert(k, v) => {
             if let Some(e) = m.map.iter_mut().find(|(kk, _)| kk == k) {
                 let old = e.1;
@@ -394,7 +411,15 @@ pub fn apply(m: &mut Model, op: &Op) -> String {
             (m.map == *kv).to_string()
         }
         MCopy | MDisplay => fmt_map(&m.map),
-        MEqSelf => "true".into(),
+        MEqSelf | MEqMetaView => "true".into(),
+        MExtendIter(k, v) => {
+            if let Some(e) = m.map.iter_mut().find(|(kk, _)| kk == k) {
+                e.1 = *v;
+            } else {
+                m.map.push((k.clone(), *v));
+            }
+            null()
+        }
         // class N operations have no sequential specification
         _ => "N/A".into(),
     }
@@ -441,7 +466,7 @@ fn gen_op(r: &mut Rng, thread: usize, n: &mut i64, target_list: bool, allow_n: b
         };
     }
     if target_list {
-        match r.below(37) {
+        match r.below(40) {
             0..=3 => Op::Push(fresh()),
             4..=5 => Op::Pop,
             6..=8 => Op::Insert(ix(r), fresh()),
@@ -488,10 +513,12 @@ fn gen_op(r: &mut Rng, thread: usize, n: &mut i64, target_list: bool, allow_n: b
             },
             33 => Op::RetainValue(1),
             34..=35 => Op::SwapOwn(fresh(), fresh()),
-            _ => Op::ExtendOwnFromShared(fresh()),
+            36 => Op::ExtendOwnFromShared(fresh()),
+            37..=38 => Op::ExtendRange(fresh() * 10),
+            _ => Op::ExtendIter(fresh() * 10),
         }
     } else {
-        match r.below(22) {
+        match r.below(24) {
             0..=3 => Op::MInsert(key(r), fresh()),
             4..=5 => Op::MRemove(key(r)),
             6 => Op::MGet(key(r)),
@@ -515,6 +542,8 @@ fn gen_op(r: &mut Rng, thread: usize, n: &mut i64, target_list: bool, allow_n: b
             },
             19 => Op::MEqLit(vec![("a".into(), 1)]),
             20 => Op::MEqSelf,
+            21 => Op::MEqMetaView,
+            22 => Op::MExtendIter(key(r), fresh()),
             _ => Op::MInsert(key(r), fresh()),
         }
     }
@@ -1002,6 +1031,10 @@ fn parse_op(s: &str) -> Option<Op> {
         "RetainValue" => RetainValue(int(0)?),
         "SwapOwn" => SwapOwn(int(0)?, int(1)?),
         "ExtendOwnFromShared" => ExtendOwnFromShared(int(0)?),
+        "ExtendRange" => ExtendRange(int(0)?),
+        "ExtendIter" => ExtendIter(int(0)?),
+        "MEqMetaView" => MEqMetaView,
+        "MExtendIter" => MExtendIter(st(0)?, int(1)?),
         "MInsert" => MInsert(st(0)?, int(1)?),
         "MRemove" => MRemove(st(0)?),
         "MGet" => MGet(st(0)?),
